@@ -4,14 +4,18 @@
  *   mode "bfs":    C05 -- explicit-state search over the real merger_iter (iter / get / get_prefix / get_range kinds)
  *   mode "tree":   C05 -- all histories up to a depth, no deduplication
  *   mode "lookup": C05 -- one-shot get/get_prefix/get_range drains against the reference table */
+#ifndef VH_BLACKBOX      /* white-box view: private structures of the repository, used ONLY to identify states (ms_canon) */
 #include "iter.c"
 #include "block.c"
 #include "reader.c"
 #include "merger.c"
+#endif
 #include "tbl.h"
+#ifndef VH_BLACKBOX
 #include "canon_reader.h"
-#include "bfs.h"
 #include "libmy/heap.h"
+#endif
+#include "bfs.h"
 
 /* ------------------------------------------------------------ universe, sources */
 #define NU 4
@@ -286,6 +290,9 @@ static int ms_alphabet(void *ctx, int *ops, int max) {
 	return n;
 }
 
+#ifdef VH_BLACKBOX
+static uint64_t ms_canon(void *ctx) { (void) ctx; return 0; }     /* unused: bfs.h identifies states by their history */
+#else
 static uint64_t canon_src_iter(const struct mtbl_iter *it) {
 	if (!it) return 0xdead;
 	if (is_reader_iter(it)) return canon_reader_iter(it->clos);
@@ -312,6 +319,7 @@ static uint64_t ms_canon(void *ctx) {
 	for (size_t j = 0; j < iter_vec_size(mi->iters); j++) h = vh_mix(h, canon_src_iter(iter_vec_value(mi->iters, j)));
 	return h;
 }
+#endif
 
 static const char *fam_desc(const family *F, const ispec *sp) {
 	static char b[200]; int o = snprintf(b, sizeof b, "M:%d:", F->k);
